@@ -550,7 +550,8 @@ def _child(case):
             cp = subprocess.run([os.path.join(croot, "scripts", main)] + call["command"][1:], cwd=os.path.join(croot, "work"), env=env,
                                 stdin=subprocess.DEVNULL, stdout=subprocess.PIPE, stderr=subprocess.PIPE, timeout=60)
             fired = os.path.exists(croot + "/sim/inv1/fired")
-            rec["chained"] = {"rc": cp.returncode, "fired": fired}
+            rec["chained"] = {"rc": cp.returncode, "fired": fired,
+                              "tail": (cp.stdout + cp.stderr)[-300:].decode(errors="replace").replace(croot, "<C>")}
             if fired:
                 bump("fault:chained_tool_failure")
             out = cp.stdout
@@ -823,6 +824,11 @@ def judge(rec, viols, bump, states, nontrivial, start_state, real_open):
     if op.get("chained"):
         failed = rec["chained"]["rc"] != 0
         has_result = not failed
+        if failed and not rec["chained"]["fired"]:
+            # the entry script really ran under the stub tools and no tool was made to fail: the package that reached the
+            # container is not one its own backend's tools can build and run (wrong or damaged files)
+            V("valid-execution-succeeds", f"the generated entry script exited {rec['chained']['rc']} in the container although no step was "
+                                          f"made to fail: {rec['chained'].get('tail', '')}")
     else:
         failed = plan_["fail_at"] is not None
         has_result = plan_["result_at"] is not None and (plan_["fail_at"] is None or plan_["result_at"] <= plan_["fail_at"])
